@@ -15,7 +15,7 @@ Definition cchecks_A (T : tables) (v : list (list val)) (c : scalars) : res unit
   sanityCheckProtocolVersions_raises T c.
 
 Definition cstep_versions (v : list (list val)) (c : scalars) : res (list (list val)) :=
-  match filter_range (minVersion c) (maxVersion c) (nth F_versions v []) with
+  match filter_range (clip_lo (minVersion c)) (maxVersion c) (nth F_versions v []) with
   | Ok l => Ok (lupd v F_versions l)
   | Err e => Err e
   end.
@@ -128,7 +128,7 @@ Proof.
                \/ exists e, step_versions h s = Err e /\ cstep_versions (lists h s) (sc s) = Err e).
   { unfold step_versions, cstep_versions.
     rewrite G_lists by (rewrite Len; unfold NF, F_versions; lia).
-    destruct (filter_range (minVersion (sc s)) (maxVersion (sc s)) (nth F_versions (lists h s) [])) as [l|e];
+    destruct (filter_range (clip_lo (minVersion (sc s))) (maxVersion (sc s)) (nth F_versions (lists h s) [])) as [l|e];
       [|right; exists e; auto].
     left. unfold halloc.
     destruct (rebind_lists h (h ++ [l]) s F_versions l W ltac:(unfold NF, F_versions; lia)
